@@ -286,7 +286,14 @@ func (s *Sim) allSpinning() bool {
 		if o.state == stDone {
 			continue
 		}
-		if o.state == stBlocked || o.spinStreak < 1 {
+		if o.state == stBlocked {
+			// a caller blocked on a stream that nobody can serve is waiting too
+			if o.wait == nil || o.wait.ready() {
+				return false
+			}
+			continue
+		}
+		if o.spinStreak < 1 {
 			return false
 		}
 	}
@@ -385,8 +392,14 @@ func (s *Sim) nthOther(t *Task, k int) *Task {
 //
 //go:norace
 func (s *Sim) nextReady(t *Task) *Task {
-	for pass := 0; pass < 2; pass++ {
-		if r := s.nextReadyPass(t, pass == 0); r != nil {
+	// first somebody who can make progress on its own (neither a parked lock
+	// holder nor a caller that is waiting for a lock), then a parked lock
+	// holder (the waiting callers need it), then anybody. A blocked task used
+	// to pass over parked holders in favour of waiting callers; with the
+	// round-robin of the waiting callers that could keep a lock holder off the
+	// processor for ever (a livelock of the harness, found on benign/c5).
+	for pass := 0; pass < 3; pass++ {
+		if r := s.nextReadyPass(t, pass); r != nil {
 			return r
 		}
 	}
@@ -394,10 +407,10 @@ func (s *Sim) nextReady(t *Task) *Task {
 }
 
 //go:norace
-func (s *Sim) nextReadyPass(t *Task, skipParked bool) *Task {
+func (s *Sim) nextReadyPass(t *Task, pass int) *Task {
 	for i := 1; i <= len(s.tasks); i++ {
 		o := s.tasks[(t.ID+i)%len(s.tasks)]
-		if o == t || (skipParked && o.parked) {
+		if o == t || (pass == 0 && (o.parked || o.spinStreak > 0)) || (pass == 1 && !o.parked) {
 			continue
 		}
 		switch o.state {
